@@ -1355,6 +1355,36 @@ def run_ak_reference(case) -> CaseResult:
 # --------------------------------------------------------------------------
 # generators
 
+_STRAT: Dict[Any, Any] = {}
+
+
+def I(lo: int, hi: int):  # noqa: E743
+    """st.integers(lo, hi), one strategy object per range (building and
+    validating a new strategy per draw dominates generation time)"""
+
+    key = (lo, hi)
+
+    if key not in _STRAT:
+        _STRAT[key] = st.integers(lo, hi)
+
+    return _STRAT[key]
+
+
+def S(seq):
+    """st.sampled_from(seq), cached by value where the elements allow it"""
+
+    try:
+        key = ('s', tuple(seq))
+        hash(key)
+    except TypeError:
+        return st.sampled_from(seq)
+
+    if key not in _STRAT:
+        _STRAT[key] = st.sampled_from(list(seq))
+
+    return _STRAT[key]
+
+
 NAMES = ['a', 'b', 'ab', 'ba', 'host1', 'host2', 'a.example.com',
          'b.example.com', 'a.b.example.com', 'example.com', 'x-1.test',
          'localhost']
@@ -1380,19 +1410,25 @@ def net_of(addr: str, plen: int) -> str:
     return '%s/%d' % (socket.inet_ntop(fam, raw), plen)
 
 
-@st.composite
+# The helpers below take Hypothesis' `draw` directly instead of being nested
+# composite strategies (building a strategy per call dominated run time).
+
+def some(draw, elem, lo: int, hi: int) -> List[Any]:
+    return [elem(draw) for _ in range(draw(I(lo, hi)))]
+
+
 def mutate(draw, target: str, keep: bool = False) -> str:
     """Pattern derived from target by up to two edits; keep=True uses only
     match-preserving edits"""
 
     s = target
 
-    for _ in range(draw(st.integers(0, 2))):
+    for _ in range(draw(I(0, 2))):
         if not s:
             break
 
-        kind = draw(st.sampled_from('qsi' if keep else 'qsixd'))
-        i = draw(st.integers(0, len(s) - 1))
+        kind = draw(S('qsi' if keep else 'qsixd'))
+        i = draw(I(0, len(s) - 1))
 
         if s[i] in '*?' and kind in 'xdq':
             continue
@@ -1400,12 +1436,12 @@ def mutate(draw, target: str, keep: bool = False) -> str:
         if kind == 'q':
             s = s[:i] + '?' + s[i + 1:]
         elif kind == 's':
-            j = draw(st.integers(i, len(s)))
+            j = draw(I(i, len(s)))
             s = s[:i] + '*' + s[j:]
         elif kind == 'i':
             s = s[:i] + '*' + s[i:]
         elif kind == 'x':
-            c = draw(st.sampled_from('z9'))
+            c = draw(S('z9'))
             s = s[:i] + ('y' if s[i] == c else c) + s[i + 1:]
         else:
             s = s[:i] + s[i + 1:]
@@ -1416,103 +1452,98 @@ def mutate(draw, target: str, keep: bool = False) -> str:
     return s
 
 
-@st.composite
 def host_pattern(draw, targets: Sequence[str], addrs: Sequence[str],
                  cidr: bool) -> str:
-    mode = draw(st.integers(0, 11))
+    mode = draw(I(0, 11))
 
     if mode <= 5:
-        return draw(mutate(draw(st.sampled_from(list(targets)))))
+        return mutate(draw, draw(S(targets)))
 
     if mode <= 7:
-        return draw(mutate(draw(st.sampled_from(NAMES + ADDRS))))
+        return mutate(draw, draw(S(NAMES + ADDRS)))
 
     if mode <= 9 and cidr:
-        addr = draw(st.sampled_from(list(addrs) + ADDRS))
+        addr = draw(S(list(addrs) + ADDRS))
         plens = V4_PREFIX if ':' not in addr else V6_PREFIX
-        return net_of(addr, draw(st.sampled_from(plens)))
+        return net_of(addr, draw(S(plens)))
 
-    return draw(st.sampled_from(GENERIC))
+    return draw(S(GENERIC))
 
 
-@st.composite
 def host_field(draw, targets, addrs, cidr=True, max_pats=4) -> str:
-    n = draw(st.sampled_from([1, 1, 1, 2, 2, 3, max_pats]))
+    n = draw(S([1, 1, 1, 2, 2, 3, max_pats]))
     pats = []
 
     for _ in range(n):
-        p = draw(host_pattern(targets, addrs, cidr))
+        p = host_pattern(draw, targets, addrs, cidr)
 
-        if draw(st.integers(0, 5)) == 5:
+        if draw(I(0, 5)) == 5:
             p = '!' + p
 
         pats.append(p)
 
-    if draw(st.integers(0, 6)) == 6:
+    if draw(I(0, 6)) == 6:
         # a negated pattern that really matches one of the targets
-        pats.insert(draw(st.integers(0, len(pats))),
-                    '!' + draw(mutate(draw(st.sampled_from(list(targets))),
-                                      keep=True)))
+        pats.insert(draw(I(0, len(pats))),
+                    '!' + mutate(draw, draw(S(targets)), keep=True))
 
     return ','.join(pats)
 
 
-@st.composite
+_POS = st.one_of(I(0, 80), I(0, 400))
+_EXTRA = st.binary(min_size=1, max_size=5)
+_SALT = st.binary(min_size=20, max_size=20)
+_INNER = [b'ssh-foo', b'', b'\xff\xfe', b'ssh-rsa ', b'SSH-ED25519']
+_DKINDS = ['b64sub', 'b64drop', 'trunc', 'extend', 'alg', 'mismatch',
+           'inner', 'noblob', 'imp-ok']
+
+
 def damage(draw, allow_imp: bool):
-    kinds = ['b64sub', 'b64drop', 'trunc', 'extend', 'alg', 'mismatch',
-             'inner', 'noblob', 'imp-ok']
-
-    if allow_imp:
-        kinds += ['imp', 'imp', 'imp']
-
-    t = draw(st.sampled_from(kinds))
+    t = draw(S(_DKINDS + ['imp', 'imp', 'imp'] if allow_imp else _DKINDS))
 
     if t in ('b64sub', 'b64drop'):
-        d = {'t': t, 'i': draw(st.one_of(st.integers(0, 80),
-                                         st.integers(0, 400)))}
+        d = {'t': t, 'i': draw(_POS)}
+
         if t == 'b64sub':
-            d['c'] = draw(st.sampled_from(B64_JUNK))
+            d['c'] = draw(S(B64_JUNK))
+
         return d
 
     if t == 'trunc':
-        return {'t': t, 'n': draw(st.one_of(st.integers(0, 60),
-                                            st.integers(0, 400)))}
+        return {'t': t, 'n': draw(_POS)}
 
     if t == 'extend':
-        return {'t': t, 'x': draw(st.binary(min_size=1, max_size=5)).hex()}
+        return {'t': t, 'x': draw(_EXTRA).hex()}
 
     if t == 'alg':
-        return {'t': t, 'name': draw(st.sampled_from(UNKNOWN_ALGS))}
+        return {'t': t, 'name': draw(S(UNKNOWN_ALGS))}
 
     if t == 'mismatch':
-        return {'t': t, 'n': draw(st.integers(0, 3))}
+        return {'t': t, 'n': draw(I(0, 3))}
 
     if t == 'inner':
-        return {'t': t, 'name': draw(st.sampled_from(
-            [b'ssh-foo', b'', b'\xff\xfe', b'ssh-rsa ', b'SSH-ED25519']))
-            .hex()}
+        return {'t': t, 'name': draw(S(_INNER)).hex()}
 
     if t == 'imp-ok':
         # impossible lengths asyncssh already classifies as import errors
-        return {'t': 'imp', 'v': draw(st.sampled_from(
-            ['ed-short', 'ed-long', 'ed-empty']))}
+        return {'t': 'imp', 'v': draw(S(['ed-short', 'ed-long', 'ed-empty']))}
 
     if t == 'imp':
-        return {'t': 'imp', 'v': draw(st.sampled_from(sorted(IMPOSSIBLE)))}
+        return {'t': 'imp', 'v': draw(S(sorted(IMPOSSIBLE)))}
 
     return {'t': t}
 
 
 def _comment(draw, non_ascii: bool):
-    r = draw(st.integers(0, 9))
+    r = draw(I(0, 9))
 
     if r < 4:
         return None
 
     if non_ascii and r == 9:
-        return draw(st.sampled_from(NON_ASCII_COMMENTS))
+        return draw(S(NON_ASCII_COMMENTS))
 
-    return draw(st.sampled_from(COMMENTS))
+    return draw(S(COMMENTS))
 
 
 FILLER = [{'kind': 'comment', 'text': '# a comment'},
@@ -1520,19 +1551,18 @@ FILLER = [{'kind': 'comment', 'text': '# a comment'},
           {'kind': 'comment', 'text': '  # indented @revoked * ssh-rsa AAAA'},
           {'kind': 'blank', 'text': ''},
           {'kind': 'blank', 'text': '   '}]
+_FILLER = st.sampled_from(FILLER)
 
 
-@st.composite
 def kh_query_st(draw, names_only=False):
     if names_only:
-        host = draw(st.sampled_from(NAMES))
+        host = draw(S(NAMES))
         addr = ''
     else:
-        addr = draw(st.sampled_from(ADDRS + ['', '']))
-        host = draw(st.sampled_from(NAMES + NAMES + ([addr] if addr
-                                                     else ADDRS)))
+        addr = draw(S(ADDRS + ['', '']))
+        host = draw(S(NAMES + NAMES + ([addr] if addr else ADDRS)))
 
-    port = draw(st.sampled_from([None, None, None] + PORTS))
+    port = draw(S([None, None, None] + PORTS))
     return host, addr, port
 
 
@@ -1545,33 +1575,30 @@ def _targets(host, addr, port):
     return t
 
 
-@st.composite
 def kh_line(draw, host, addr, port, key: Optional[int] = None,
             allow_imp=False, non_ascii=False, cidr=True, dmg_rate=5,
             force_damage=False):
-    if not force_damage and draw(st.integers(0, 11)) == 11:
-        return draw(st.sampled_from(FILLER))
+    if not force_damage and draw(I(0, 11)) == 11:
+        return draw(_FILLER)
 
     targets = _targets(host, addr, port)
     addrs = [a for a in (addr, host) if a and parse_ip(a)]
 
-    if draw(st.integers(0, 5)) == 5:
-        name = draw(st.sampled_from(targets + targets + NAMES + ADDRS))
-        hosts: Any = {'name': name,
-                      'salt': draw(st.binary(min_size=20, max_size=20)).hex()}
+    if draw(I(0, 5)) == 5:
+        name = draw(S(targets + targets + NAMES + ADDRS))
+        hosts: Any = {'name': name, 'salt': draw(_SALT).hex()}
     else:
-        hosts = draw(host_field(targets, addrs, cidr))
+        hosts = host_field(draw, targets, addrs, cidr)
 
     ln: Dict[str, Any] = {
         'kind': 'key',
-        'm': draw(st.sampled_from([None, None, None, 'cert-authority',
-                                   'revoked'])),
+        'm': draw(S([None, None, None, 'cert-authority', 'revoked'])),
         'h': hosts,
-        'k': draw(st.integers(0, NKEYS - 1)) if key is None else key,
-        'd': draw(damage(allow_imp)) if force_damage or
-        draw(st.integers(0, dmg_rate)) == dmg_rate else None,
-        'lead': draw(st.sampled_from([0, 0, 0, 0, 1, 3])),
-        'sp': [draw(st.sampled_from([0, 0, 0, 1, 2])) for _ in range(3)],
+        'k': draw(I(0, NKEYS - 1)) if key is None else key,
+        'd': damage(draw, allow_imp) if force_damage or
+        draw(I(0, dmg_rate)) == dmg_rate else None,
+        'lead': draw(S([0, 0, 0, 0, 1, 3])),
+        'sp': [draw(S([0, 0, 0, 1, 2])) for _ in range(3)],
     }
     ln['c'] = None if ln['d'] and ln['d']['t'] == 'noblob' \
         else _comment(draw, non_ascii)
@@ -1583,26 +1610,25 @@ def kh_reference_strategy(tier: str):
 
     @st.composite
     def build(draw):
-        host, addr, port = draw(kh_query_st())
+        host, addr, port = kh_query_st(draw)
         # at most one of the shapes behind a known finding per file
-        quirk = draw(st.integers(0, 19))
+        quirk = draw(I(0, 19))
         allow_imp = quirk == 18
         non_ascii = quirk == 19
-        lines = draw(st.lists(kh_line(host, addr, port, allow_imp=allow_imp,
-                                      non_ascii=non_ascii),
-                              min_size=1, max_size=max_lines))
+        lines = some(draw, lambda d: kh_line(d, host, addr, port,
+                                             allow_imp=allow_imp,
+                                             non_ascii=non_ascii),
+                     1, max_lines)
         # the same file asked about related targets: other port / no port,
         # address only, name only, an unrelated name
         variants = [[host, addr, None], [host, addr, 2222], [host, '', port],
                     [addr or host, addr, port], [host, addr, 4022],
-                    [draw(st.sampled_from(NAMES)),
-                     draw(st.sampled_from(ADDRS)), port]]
-        more = draw(st.lists(st.sampled_from(variants), max_size=3,
-                             unique_by=str))
+                    [draw(S(NAMES)), draw(S(ADDRS)), port]]
+        more = [variants[i] for i in
+                sorted(set(some(draw, lambda d: d(I(0, 5)), 0, 3)))]
         return {'lines': lines, 'host': host, 'addr': addr, 'port': port,
-                'more': more,
-                'nl': draw(st.sampled_from([True, True, False])),
-                'via': draw(st.sampled_from(['bytes', 'bytes', 'object']))}
+                'more': more, 'nl': draw(S([True, True, False])),
+                'via': draw(S(['bytes', 'bytes', 'object']))}
 
     return build()
 
@@ -1612,20 +1638,12 @@ def kh_keygen_strategy(tier: str):
 
     @st.composite
     def build(draw):
-        host, _, port = draw(kh_query_st(names_only=True))
-        n = draw(st.integers(1, max_lines))
+        host, _, port = kh_query_st(draw, names_only=True)
+        n = draw(I(1, max_lines))
+        # every key is used once, so (marker, key) identifies a line
         keys = draw(st.permutations(list(range(NKEYS))))
-        lines = []
-
-        for i in range(n):
-            ln = draw(kh_line(host, '', port, key=keys[i], cidr=False))
-
-            if ln['kind'] == 'key' and ln['m'] is not None:
-                # (marker, key) stays unique because every key is used once
-                pass
-
-            lines.append(ln)
-
+        lines = [kh_line(draw, host, '', port, key=keys[i], cidr=False)
+                 for i in range(n)]
         return {'lines': lines, 'host': host, 'port': port}
 
     return build()
@@ -1636,46 +1654,43 @@ def kh_metamorphic_strategy(tier: str):
 
     @st.composite
     def build(draw):
-        host, addr, port = draw(kh_query_st())
-        allow_imp = draw(st.integers(0, 11)) == 11
-        lines = draw(st.lists(kh_line(host, addr, port, dmg_rate=9),
-                              min_size=1, max_size=max_lines))
-        kind = draw(st.sampled_from(['insert', 'insert', 'perm', 'negate',
-                                     'negate']))
+        host, addr, port = kh_query_st(draw)
+        allow_imp = draw(I(0, 11)) == 11
+        lines = some(draw, lambda d: kh_line(d, host, addr, port, dmg_rate=9),
+                     1, max_lines)
+        kind = draw(S(['insert', 'insert', 'perm', 'negate', 'negate']))
 
         if kind == 'insert':
-            if draw(st.integers(0, 5)) == 5:
-                line = draw(st.sampled_from(FILLER))
+            if draw(I(0, 5)) == 5:
+                line = draw(_FILLER)
             else:
-                line = draw(kh_line(host, addr, port, allow_imp=allow_imp,
-                                    force_damage=True))
+                line = kh_line(draw, host, addr, port, allow_imp=allow_imp,
+                               force_damage=True)
                 # make sure the damaged line would be selected if it were
                 # not skipped
-                if draw(st.integers(0, 2)) < 2 and not isinstance(line['h'],
-                                                              dict):
-                    line['h'] = draw(st.sampled_from(
+                if draw(I(0, 2)) < 2 and not isinstance(line['h'], dict):
+                    line['h'] = draw(S(
                         ['*', host, host + ',*'] +
                         (['[%s]:%d' % (host, port)] if port else [])))
-            op = {'t': 'insert', 'pos': draw(st.integers(0, max_lines)),
-                  'line': line}
+
+            op = {'t': 'insert', 'pos': draw(I(0, max_lines)), 'line': line}
         elif kind == 'perm':
             op = {'t': 'perm',
                   'perm': draw(st.permutations(list(range(len(lines)))))}
         else:
-            base = draw(st.sampled_from([host] + ([addr] if addr else [])))
-            negs = [draw(mutate(base, keep=True))]
+            base = draw(S([host] + ([addr] if addr else [])))
+            negs = [mutate(draw, base, keep=True)]
 
             if port:
-                negs.append(draw(mutate('[%s]:%d' % (base, port), keep=True)))
-            elif parse_ip(base) and draw(st.integers(0, 1)):
+                negs.append(mutate(draw, '[%s]:%d' % (base, port), keep=True))
+            elif parse_ip(base) and draw(I(0, 1)):
                 plens = V4_PREFIX if ':' not in base else V6_PREFIX
-                negs = [net_of(base, draw(st.sampled_from(plens)))]
+                negs = [net_of(base, draw(S(plens)))]
 
             keyidx = [i for i, ln in enumerate(lines) if ln['kind'] == 'key'
                       and not isinstance(ln['h'], dict)]
-            op = {'t': 'negate',
-                  'idx': draw(st.sampled_from(keyidx)) if keyidx else 0,
-                  'at': draw(st.integers(0, 4)), 'neg': negs}
+            op = {'t': 'negate', 'idx': draw(S(keyidx)) if keyidx else 0,
+                  'at': draw(I(0, 4)), 'neg': negs}
 
         return {'lines': lines, 'host': host, 'addr': addr, 'port': port,
                 'op': op}
@@ -1691,102 +1706,94 @@ FLAGS = ['no-pty', 'no-port-forwarding', 'no-agent-forwarding',
          'x-custom']
 PERMITOPEN = ['localhost:80', '10.1.2.3:22', 'a.example.com:*', '[::1]:80',
               '[2001:db8::5]:*', 'localhost:65535', '*:22']
+_TEXT12 = st.text(VALUE_ALPHABET, max_size=12)
+_TEXT8 = st.text(VALUE_ALPHABET, max_size=8)
+_PRINC = st.sampled_from(PRINCIPALS)
+
+
+def _plist(draw, lo: int, unique: bool = False) -> List[str]:
+    out = some(draw, lambda d: d(_PRINC), lo, 3)
+    return sorted(set(out), key=out.index) if unique else out
 
 
 def _recase(draw, name: str) -> str:
-    return draw(st.sampled_from([name.upper(), name.capitalize(),
-                                 name[:-1] + name[-1].upper()]))
+    return draw(S([name.upper(), name.capitalize(),
+                   name[:-1] + name[-1].upper()]))
 
 
-@st.composite
 def ak_option(draw, host, addr, kwcase: bool, used_env: List[str]):
-    kind = draw(st.sampled_from(['from', 'from', 'principals', 'command',
-                                 'environment', 'permitopen', 'flag', 'flag',
-                                 'custom']))
+    kind = draw(S(['from', 'from', 'principals', 'command', 'environment',
+                   'permitopen', 'flag', 'flag', 'custom']))
 
     if kind == 'from':
-        name, value = 'from', draw(host_field([host, addr], [addr]))
+        name, value = 'from', host_field(draw, [host, addr], [addr])
     elif kind == 'principals':
-        name = 'principals'
-        value = ','.join(draw(st.lists(st.sampled_from(PRINCIPALS),
-                                       min_size=1, max_size=3)))
+        name, value = 'principals', ','.join(_plist(draw, 1))
     elif kind == 'command':
-        name = 'command'
-        value = draw(st.text(VALUE_ALPHABET, max_size=12))
+        name, value = 'command', draw(_TEXT12)
     elif kind == 'environment':
         free = [n for n in ENV_NAMES if n not in used_env]
-        var = draw(st.sampled_from(free or ENV_NAMES))
+        var = draw(S(free or ENV_NAMES))
         used_env.append(var)
-        name = 'environment'
-        value = var + '=' + draw(st.text(VALUE_ALPHABET, max_size=8))
+        name, value = 'environment', var + '=' + draw(_TEXT8)
     elif kind == 'permitopen':
-        name, value = 'permitopen', draw(st.sampled_from(PERMITOPEN))
+        name, value = 'permitopen', draw(S(PERMITOPEN))
     elif kind == 'flag':
-        name, value = draw(st.sampled_from(FLAGS)), None
+        name, value = draw(S(FLAGS)), None
     else:
-        name = draw(st.sampled_from(['tunnel', 'x-note']))
-        value = draw(st.text(VALUE_ALPHABET, max_size=6))
+        name, value = draw(S(['tunnel', 'x-note'])), draw(_TEXT8)
 
-    if kwcase and name in AK_CANON and draw(st.integers(0, 1)):
+    if kwcase and name in AK_CANON and draw(I(0, 1)):
         name = _recase(draw, name)
 
     return [name, value]
 
 
-@st.composite
 def ak_line(draw, q, allow_imp, non_ascii, kwcase):
-    if draw(st.integers(0, 11)) == 11:
-        return draw(st.sampled_from(FILLER))
+    if draw(I(0, 11)) == 11:
+        return draw(_FILLER)
 
     used_env: List[str] = []
-    opts = draw(st.lists(ak_option(q['host'], q['addr'], kwcase, used_env),
-                         min_size=0, max_size=4))
-    # one command per line: sshd(8) does not say which of several wins
-    seen_cmd = False
-    kept = []
+    opts = []
 
-    for o in opts:
-        if o[0].lower() == 'command':
-            if seen_cmd:
-                continue
-            seen_cmd = True
-        kept.append(o)
+    for o in some(draw, lambda d: ak_option(d, q['host'], q['addr'], kwcase,
+                                            used_env), 0, 4):
+        # one command per line: sshd(8) does not say which of several wins
+        if o[0].lower() == 'command' and \
+                any(x[0].lower() == 'command' for x in opts):
+            continue
 
-    opts = kept
+        opts.append(o)
 
-    if draw(st.integers(0, 2)) == 2:
+    if draw(I(0, 2)) == 2:
         # certificate authority line, often with a principals restriction
         ca_name = 'cert-authority'
 
-        if kwcase and draw(st.integers(0, 1)):
+        if kwcase and draw(I(0, 1)):
             ca_name = _recase(draw, ca_name)
 
-        opts.insert(draw(st.integers(0, len(opts))), [ca_name, None])
+        opts.insert(draw(I(0, len(opts))), [ca_name, None])
 
-        if draw(st.integers(0, 1)):
-            plist = draw(st.lists(st.sampled_from(PRINCIPALS), min_size=1,
-                                  max_size=3))
-            opts.insert(draw(st.integers(0, len(opts))),
-                        ['principals', ','.join(plist)])
+        if draw(I(0, 1)):
+            opts.insert(draw(I(0, len(opts))),
+                        ['principals', ','.join(_plist(draw, 1))])
 
-    if draw(st.integers(0, 7)) == 7:
+    if draw(I(0, 7)) == 7:
         # repeated from: a second list that matches or not
-        opts.append(['from', draw(host_field([q['host'], q['addr']],
-                                             [q['addr']]))])
-        opts.append(['from', draw(st.sampled_from(
+        opts.append(['from', host_field(draw, [q['host'], q['addr']],
+                                        [q['addr']])])
+        opts.append(['from', draw(S(
             ['*', q['host'], q['addr'], '10.0.0.0/8', 'nomatch.invalid',
              '*,!' + q['host']]))])
 
-    # a flag option must not look like a key type; values never end in a
+    # a flag option never looks like a key type; values never end in a
     # backslash by construction of the alphabet
     ln: Dict[str, Any] = {
         'kind': 'key', 'o': opts,
-        'k': q['key'] if draw(st.integers(0, 3)) < 3 else
-        draw(st.integers(0, NKEYS - 1)),
-        'd': draw(damage(allow_imp)) if draw(st.integers(0, 5)) == 5
-        else None,
-        'lead': draw(st.sampled_from([0, 0, 0, 1, 2])),
-        'sp': draw(st.sampled_from([0, 0, 0, 1, 3])),
+        'k': q['key'] if draw(I(0, 3)) < 3 else draw(I(0, NKEYS - 1)),
+        'd': damage(draw, allow_imp) if draw(I(0, 5)) == 5 else None,
+        'lead': draw(S([0, 0, 0, 1, 2])),
+        'sp': draw(S([0, 0, 0, 1, 3])),
     }
     ln['c'] = None if ln['d'] and ln['d']['t'] == 'noblob' \
         else _comment(draw, non_ascii)
@@ -1798,38 +1805,32 @@ def ak_reference_strategy(tier: str):
 
     @st.composite
     def build(draw):
-        ca = draw(st.integers(0, 2)) == 2
-        addr = draw(st.sampled_from(ADDRS))
-        q = {'key': draw(st.integers(0, NKEYS - 1)),
-             'host': draw(st.sampled_from(NAMES + [addr])),
+        ca = draw(I(0, 2)) == 2
+        addr = draw(S(ADDRS))
+        q = {'key': draw(I(0, NKEYS - 1)),
+             'host': draw(S(NAMES + [addr])),
              'addr': addr, 'ca': ca,
-             'principals': draw(st.lists(st.sampled_from(PRINCIPALS),
-                                         max_size=3, unique=True))
-             if ca else None}
+             'principals': _plist(draw, 0, True) if ca else None}
         # at most one of the shapes behind a known finding per file
-        quirk = draw(st.integers(0, 23))
+        quirk = draw(I(0, 23))
         allow_imp = quirk == 21
         non_ascii = quirk == 22
         kwcase = quirk == 23
-        lines = draw(st.lists(ak_line(q, allow_imp, non_ascii, kwcase),
-                              min_size=1, max_size=max_lines))
+        lines = some(draw, lambda d: ak_line(d, q, allow_imp, non_ascii,
+                                             kwcase), 1, max_lines)
         # the same file asked on behalf of related clients
-        other = draw(st.sampled_from(ADDRS))
-        plist = draw(st.lists(st.sampled_from(PRINCIPALS), max_size=3,
-                              unique=True))
+        other = draw(S(ADDRS))
+        plist = _plist(draw, 0, True)
         variants = [dict(q, ca=not ca, principals=None if ca else plist),
-                    dict(q, host=draw(st.sampled_from(NAMES))),
+                    dict(q, host=draw(S(NAMES))),
                     dict(q, addr=other),
                     dict(q, host=other, addr=other),
-                    dict(q, key=draw(st.integers(0, NKEYS - 1)))]
-
-        if ca:
-            variants.append(dict(q, principals=plist))
-
-        more = draw(st.lists(st.sampled_from(variants), max_size=3,
-                             unique_by=str))
+                    dict(q, key=draw(I(0, NKEYS - 1))),
+                    dict(q, principals=plist if ca else None)]
+        more = [variants[i] for i in
+                sorted(set(some(draw, lambda d: d(I(0, 5)), 0, 3)))]
         return {'lines': lines, 'q': q, 'more': more,
-                'nl': draw(st.sampled_from([True, True, False]))}
+                'nl': draw(S([True, True, False]))}
 
     return build()
 
@@ -1840,7 +1841,7 @@ _DMG_KINDS = ['dmg:' + k for k in ('b64sub', 'b64drop', 'trunc', 'extend',
 
 FAMILIES = [
     Family('kh_reference', run_kh_reference, strategy=kh_reference_strategy,
-           budget={'quick': 6000, 'thorough': 100000},
+           budget={'quick': 4000, 'thorough': 60000},
            required={'all': ['selected', 'none-selected', 'neg-excluded',
                              'hashed-hit', 'exact-hit', 'wild-hit',
                              'numeric-hit', 'bracket-hit', 'addr-only-hit',
@@ -1854,11 +1855,11 @@ FAMILIES = [
                              'port-fallback', 'damaged']}),
     Family('kh_metamorphic', run_kh_metamorphic,
            strategy=kh_metamorphic_strategy,
-           budget={'quick': 3000, 'thorough': 40000},
+           budget={'quick': 2000, 'thorough': 25000},
            required={'all': ['op:insert', 'op:perm', 'op:negate',
                              'negate-removes-selected', 'selected']}),
     Family('ak_reference', run_ak_reference, strategy=ak_reference_strategy,
-           budget={'quick': 6000, 'thorough': 100000},
+           budget={'quick': 4000, 'thorough': 60000},
            required={'all': ['accepted', 'rejected', 'from-match',
                              'from-reject', 'principals-match',
                              'principals-reject', 'multi-from',
